@@ -45,6 +45,16 @@ CLAIMED['C11'] = (
     'positive rescaling is a stated lemma); shapes concrete per job; SVD only for shapes with one dimension = 1 (2x2 '
     'Moore-Penrose reasoning is beyond z3 NRA within the budget).',
     'DESIGN.md §4 C11', TECH)
+CLAIMED['C19'] = (
+    'The registry is extracted by executing the translated elements.pyx; its tables become if-then-else terms over solver '
+    'index variables and z3 decides, exhaustively over all entries, name/symbol uniqueness, periodic-table agreement, '
+    'isotope consistency and that every identifier key of the index the code built maps back to its own object. '
+    'lookup_element / lookup_isotope are executed for every entry and identifier kind with the letter case of every '
+    'character a solver boolean (all 2^n spellings). Element/Isotope/Line equality and hashing are executed with fully '
+    'symbolic fields: eq <=> all fields equal, ne complementary, equal objects hash equal field tuples.',
+    'string equality inside the table is interned to integers; registry entries are enumerated by forking on the index '
+    'variable (finite, complete); hash() kept structural.',
+    'DESIGN.md §4 C19', TECH)
 NOT_YET = {}
 props = [json.loads(l) for l in open(os.path.join(HERE, 'properties.jsonl'))]
 checks, na = [], []
